@@ -117,9 +117,12 @@ def maybe_lzma_decompress(path) -> str:
     log(f'Reusing cached file {decompressed_path!r}')
   else:
     log(f'Decompressing {path!r} to {decompressed_path!r}')
+    # Decompress to a temporary name first, so that an interrupted
+    # decompression never leaves a truncated file that is later reused.
     with lzma.open(path, 'rb') as fi:
-      with open(decompressed_path, 'wb') as fo:
+      with open(decompressed_path + '.partial', 'wb') as fo:
         shutil.copyfileobj(fi, fo)
+    os.rename(decompressed_path + '.partial', decompressed_path)
   return decompressed_path
 
 
